@@ -28,7 +28,6 @@ ASSUMPTIONS = [
     "non-string IP address values (int/bytes, accepted by the ipaddress module) and incomplete "
     "dictionaries are outside the statement",
     "a falsy TRANSPORT_TYPE given to Diameter(config=...) becoming 'TCP' is the documented default",
-    "an application entry carrying only one of vendor_id/app_id may be accepted if reflected unchanged",
 ]
 
 KEYS = ["MODE", "TRANSPORT_TYPE", "APPLICATIONS", "LOCAL_NODE_HOSTNAME", "LOCAL_NODE_REALM",
@@ -59,7 +58,9 @@ INVALID = {
     "APPLICATIONS": [[{"vendor_id": "10415", "app_id": "16777251"}], [{"vendor_id": 10415, "app_id": 16777251}],
                      [{"foo": b"\x00\x00\x00\x01"}], [{"vendor_id": b"\x00\x00\x28\xaf", "app_id": None}],
                      "S6a", 16777251, [b"\x01\x00\x00\x23"], {"vendor_id": b"\x00\x00\x28\xaf"},
-                     [APP, {"vendor_id": "x", "app_id": b"\x01\x00\x00\x23"}]],
+                     [APP, {"vendor_id": "x", "app_id": b"\x01\x00\x00\x23"}],
+                     None, "", 0, (), {}, [{"vendor_id": b"\x00\x00\x28\xaf"}], [{"app_id": b"\x01\x00\x00\x23"}],
+                     [{"vendor_id": b"\x00\x00\x28\xaf", "app_id": b"\x01\x00\x00\x23", "zzz": b"w"}]],
     "LOCAL_NODE_IP_ADDRESS": ["1.2.3", "256.1.1.1", "1.2.3.4.5", "::1", "127.0.0.1 ", " 127.0.0.1", "",
                               "a.b.c.d", "1.2.3.4/32", "01.2.3.4", None, "localhost", "1..2.3"],
     "PEER_NODE_IP_ADDRESS": ["1.2.3", "300.0.0.1", "2001:db8::1", "", "peer.example", None, "1.2.3.-4"],
@@ -309,6 +310,10 @@ YAML_INVALID = [
     ("malformed-ip", "client", None, [("VENDOR_ID_3GPP", "DIAMETER_APPLICATION_Gx")], "127.0.0.256", "30"),
     ("non-integer-timeout", "client", None, [("VENDOR_ID_3GPP", "DIAMETER_APPLICATION_Gx")], "127.0.0.1", "soon"),
     ("float-timeout", "client", None, [("VENDOR_ID_3GPP", "DIAMETER_APPLICATION_Gx")], "127.0.0.1", "1.5"),
+    # unknown keys: a misspelt optional key in the entry, an extra key in the entry, an extra key under local
+    ("unknown-key-misspelt", "client", "sctp", [("VENDOR_ID_3GPP", "DIAMETER_APPLICATION_Gx")], "127.0.0.1", "30"),
+    ("unknown-key-entry", "client", None, [("VENDOR_ID_3GPP", "DIAMETER_APPLICATION_Gx")], "127.0.0.1", "30"),
+    ("unknown-key-local", "client", None, [("VENDOR_ID_3GPP", "DIAMETER_APPLICATION_Gx")], "127.0.0.1", "30"),
 ]
 
 
@@ -332,8 +337,13 @@ def yaml_invalid_text(inv, position, n_valid):
         bad += [f"      - vendor_id: {v}", f"        app_id: {a}"]
     bad += [f"    mode: {mode}", f"    watchdog_timeout: {wd}"]
     if transport is not None:
-        bad.append(f"    transport_type: {transport}")
-    bad += ["    local:", f"      ip_address: {ip}", "      hostname: localx.example", "      realm: examplex", "      port: 3999",
+        bad.append(f"    {'transport_typ' if label == 'unknown-key-misspelt' else 'transport_type'}: {transport}")
+    if label == "unknown-key-entry":
+        bad.append("    foo: bar")
+    bad += ["    local:", f"      ip_address: {ip}", "      hostname: localx.example", "      realm: examplex", "      port: 3999"]
+    if label == "unknown-key-local":
+        bad.append("      foo: bar")
+    bad += [
             "    peer:", "      ip_address: 127.0.9.9", "      hostname: peerx.example", "      realm: peerrealmx", "      port: 4999"]
     entries.insert(position, bad)
     return "\n".join(head + [ln for e in entries for ln in e]) + "\n"
